@@ -2738,7 +2738,7 @@ class Generic_Binding(StmtBase):
         return (
             aspec,
             Generic_Spec(line[:i].rstrip()),
-            Binding_Name_List(line[i + 3 :].lstrip()),
+            Binding_Name_List(line[i + 2 :].lstrip()),
         )
 
     def tostr(self):
